@@ -240,6 +240,15 @@ class Sym:
     def __deepcopy__(self, memo):
         return self
 
+    # numpy scalar look-alike
+    @property
+    def flat(self):
+        return iter([self])
+
+    size = 1
+    shape = ()
+    ndim = 0
+
 
 def _coerce(a, b):
     if z3.is_int(a) and z3.is_int(b):
